@@ -1,9 +1,10 @@
 import PallasVerif.Stream
 import PallasVerif.Model.Hash
+import PallasVerif.Model.Blake2bArray
 /-! stream `hash` (C10): Hasher / Hash<N> codecs / nonces. Stateless.
     ops: `selftest` | `chunks <bits> <hex>*` | `hash <bits> <hex>` | `tagged <bits> <tag> <hex>` |
     `cbor <bits> <tag|-> <tok>*` | `tohex <hex>` | `fromstr <n> <hex of the string's UTF-8>` |
-    `enc <hex>` | `dec <n> <hex>` | `fromslice <n> <hex>` | `epoch <nc> <nh> <extra|none>` |
+    `serde <hex>` | `deserde <n> <hex of JSON text>` | `enc <hex>` | `dec <n> <hex>` | `fromslice <n> <hex>` | `epoch <nc> <nh> <extra|none>` |
     `rolling <prev> <vrf>`.
     CBOR tokens: `u:<n>` `n:<n>` `b:<hex>` `t:<hex>` `a:<n>` `m:<n>` `g:<n>` `T` `F` `N` `ia` `im` `ib` `brk` `h:<hex>`. -/
 namespace PallasVerif.Streams.Hash
@@ -47,7 +48,8 @@ def step (_ : Unit) (toks : List String) : Unit × String :=
   | ["selftest"] => "ok " ++ Tok.showBool selfTest
   | "chunks" :: bits :: chunks =>
     match Tok.nat? bits, parseAll Tok.unhex chunks with
-    | some bits, some cs => okHex (finalize (cs.foldl update (hasherNew bits)))
+    -- the array-level transcription of cryptoxide's context (Model/Blake2bArray.lean)
+    | some bits, some cs => okHex (finalizeMut (cs.foldl updateMut (initA (bits / 8))))
     | _, _ => "bad-op"
   | ["hash", bits, d] =>
     match Tok.nat? bits, Tok.unhex d with
@@ -72,6 +74,14 @@ def step (_ : Unit) (toks : List String) : Unit × String :=
   | ["fromstr", n, s] =>
     match Tok.nat? n, Tok.unhex s with
     | some n, some s => (match hashFromStr n s with | .ok h => okHex h | .error e => showHexErr e)
+    | _, _ => "bad-op"
+  | ["serde", h] =>
+    match Tok.unhex h with
+    | some h => okHex (hashToJson h)
+    | none => "bad-op"
+  | ["deserde", n, j] =>
+    match Tok.nat? n, Tok.unhex j with
+    | some n, some j => (match hashOfJson n j with | some h => okHex h | none => "err invalid")
     | _, _ => "bad-op"
   | ["enc", h] =>
     match Tok.unhex h with
